@@ -480,7 +480,9 @@ fn write_replay(cfg: &Cfg, subseed: u64, h: &History, rep: &RunReport, class: &s
         "plan": {"threads": h.threads, "schedule": h.schedule, "faults": h.faults},
         "how_to_replay": format!("cd /verif && ./check C08 --replay {}", path.display()),
     });
-    std::fs::write(&path, serde_json::to_string_pretty(&doc).unwrap() + "\n").expect("write replay");
+    // paths are recorded relative to the tree root so that a replay file works from any checkout
+    let text = serde_json::to_string_pretty(&doc).unwrap().replace(&cfg.tree_root.display().to_string(), "${TREE}");
+    std::fs::write(&path, text + "\n").expect("write replay");
     path
 }
 
@@ -554,6 +556,9 @@ fn absorb(agg: &mut Agg, subseed: u64, h: &History, rep: &RunReport, oracle: &Or
             if st.get("blocked").and_then(|v| v.as_u64()).unwrap_or(0) > 0 {
                 bump(&mut agg.probes, "runs_with_lock_contention", 1);
             }
+        }
+        if res["degraded"].as_u64().unwrap_or(0) > 0 {
+            bump(&mut agg.probes, "runs_degraded_by_blocking_outside_the_seam", 1);
         }
         let inj = res["injected"].as_array().map(|a| a.len()).unwrap_or(0);
         if inj > 0 {
@@ -703,7 +708,7 @@ fn main() {
         let doc: Value = serde_json::from_str(&std::fs::read_to_string(&file).unwrap_or_else(|e| {
             eprintln!("harness error: cannot read {}: {}", file, e);
             std::process::exit(2)
-        }))
+        }).replace("${TREE}", &cfg.tree_root.display().to_string()))
         .unwrap_or_else(|e| {
             eprintln!("harness error: bad replay file: {}", e);
             std::process::exit(2)
@@ -777,6 +782,7 @@ fn main() {
 
     // determinism sample: the same plan twice in separate processes must give the same event log
     let det_checked = AtomicU64::new(0);
+    let det_degraded = AtomicU64::new(0);
     let det_diff = Mutex::new(Vec::<u64>::new());
     if cfg.hooked.is_some() {
         let next = AtomicUsize::new(0);
@@ -800,6 +806,13 @@ fn main() {
                     let key = |r: &WorkerResult| {
                         r.json.as_ref().map(|v| format!("{}|{}|{}", v["log_hash"], v["outcomes"], v["decisions"])).unwrap_or_else(|| format!("crash:{:?}", r.crash))
                     };
+                    let degraded = |r: &WorkerResult| r.json.as_ref().map(|v| v["degraded"].as_u64().unwrap_or(0) > 0).unwrap_or(false);
+                    if degraded(&a) || degraded(&b) {
+                        // a thread blocked outside the seam and was detached by the watchdog: such
+                        // a run is a real execution but not a replayable one; not compared
+                        det_degraded.fetch_add(1, Ordering::Relaxed);
+                        continue;
+                    }
                     det_checked.fetch_add(1, Ordering::Relaxed);
                     if key(&a) != key(&b) {
                         det_diff.lock().unwrap().push(sub);
@@ -866,7 +879,7 @@ fn main() {
         "scheduler_counters": agg.counters,
         "probes": agg.probes,
         "outcomes_by_kind": agg.outcome_kinds,
-        "determinism": {"plans_run_twice_in_separate_processes": det_checked.load(Ordering::Relaxed), "diverging": det_diff.len()},
+        "determinism": {"plans_run_twice_in_separate_processes": det_checked.load(Ordering::Relaxed), "diverging": det_diff.len(), "skipped_because_a_thread_blocked_outside_the_seam": det_degraded.load(Ordering::Relaxed)},
         "components": {
             "real": ["graphql_client_codegen (whole crate, from /repo working tree)", "graphql-parser", "graphql-introspection-query", "serde_json", "proc-macro2 fallback token streams", "std::fs on real files, symlinks, hard links", "std::sync::Mutex incl. poisoning (wrapped, not modelled)", "OS threads (parked; one runnable at a time)"],
             "simulated": ["choice of the running thread at every cache-lock attempt, at read_file open/read, and between calls", "transient read errors at the read_file fault point"],
